@@ -40,6 +40,7 @@ func checkNoPhantomsMax(cr *crashRun, k int, dumps []*wl.Dump, rec *hx.Rec, maxD
 		}
 	}
 	present := map[int64]int{} // tag -> times seen
+	undumped := map[int]bool{} // buckets without a usable dump (not asked for, or unreadable)
 	for bi, spec := range cr.H.Buckets {
 		key := spec.Bucket().Key()
 		var bd *wl.BucketDump
@@ -49,6 +50,7 @@ func checkNoPhantomsMax(cr *crashRun, k int, dumps []*wl.Dump, rec *hx.Rec, maxD
 			}
 		}
 		if bd == nil || bd.Error != "" {
+			undumped[bi] = true
 			continue // availability is C03's subject
 		}
 		tf := hx.TFDuration(spec.TF)
@@ -98,6 +100,11 @@ func checkNoPhantomsMax(cr *crashRun, k int, dumps []*wl.Dump, rec *hx.Rec, maxD
 		for _, w := range rows {
 			if w.op != inflight || !w.lastInOp {
 				continue
+			}
+			if undumped[w.bucket] {
+				// atomicity cannot be judged without the contents of every bucket of the transaction
+				in, out = nil, nil
+				break
 			}
 			if present[w.tag] > 0 {
 				in = append(in, w)
